@@ -14,6 +14,35 @@ theorem tie_glue_merge_into_accounts : Generated.mergeIntoAccounts =
     [("target.RunAs", "a.RunAs"), ("target.Users", "slices.Concat(a.Users, target.Users)"),
      ("target.Groups", "slices.Concat(a.Groups, target.Groups)")] := rfl
 
+/-- the LISTS of a configuration (`paths`, `volumes`; users and groups above; keyring, repositories and packages in
+`tie_glue_merge_into_contents` of C12) are merged by plain concatenation, included first — each is assigned exactly once:
+`Model.Accounts.mergeLists` -/
+theorem tie_glue_merge_into_lists :
+    Generated.mergeIntoConfig.filter (fun kv => kv.1 == "target.Paths" || kv.1 == "target.Volumes") =
+      [("target.Paths", "slices.Concat(ic.Paths, target.Paths)"),
+       ("target.Volumes", "slices.Concat(ic.Volumes, target.Volumes)")] := by decide
+
+/-- every assignment of the three MergeInto functions that calls anything is a `slices.Concat(<included>.X, target.X)` of
+one field (or the clone of a map): no list goes through a function that could drop, reorder or merge elements -/
+theorem tie_glue_merge_into_concat_only :
+    ((Generated.mergeIntoConfig ++ Generated.mergeIntoAccounts ++ Generated.mergeIntoContents).filter
+        (fun kv => kv.2.toList.contains '(')).map (·.2) =
+      ["maps.Clone(ic.Environment)", "slices.Concat(ic.Paths, target.Paths)", "maps.Clone(ic.Annotations)",
+       "slices.Concat(ic.Volumes, target.Volumes)", "slices.Concat(a.Users, target.Users)",
+       "slices.Concat(a.Groups, target.Groups)", "slices.Concat(i.Keyring, target.Keyring)",
+       "slices.Concat(i.BuildRepositories, target.BuildRepositories)",
+       "slices.Concat(i.RuntimeRepositories, target.RuntimeRepositories)",
+       "slices.Concat(i.Packages, target.Packages)"] := by decide +kernel
+
+/-- the two places a configuration passes through MergeInto on its way to the build: the include (included into
+including) and the per-architecture copy of `LockImageConfiguration` (the input into an EMPTY configuration; afterwards
+only the package list and the architecture are written): `Model.Accounts.buildPaths` -/
+theorem tie_glue_merge_into_callers :
+    Generated.includeMergeCalls = ["included.MergeInto(ic)"] ∧
+    Generated.lockCopyStatements =
+      ["copied := types.ImageConfiguration{}", "input.MergeInto(&copied)", "copied.Contents.Packages = pl",
+       "copied.Archs = []types.Architecture{types.ParseArchitecture(arch)}"] := ⟨rfl, rfl⟩
+
 theorem tie_glue_mutate_accounts_on_context_config : Generated.buildImageMutateAccountsArgs = ["bc.fs", "&bc.ic"] := rfl
 
 theorem tie_glue_account_files_rewritten : Generated.mutateAccountsWrites = ["gf.WriteFile(fsys, path)", "uf.WriteFile(path)"] := rfl
